@@ -442,7 +442,7 @@ func c16Sim(r *simcore.Run) {
 				}
 				w.reason = "torn-at-boundary"
 			case 3: // unsupported content replaces the file, then the valid version
-				bad := simcore.Pick(s, []string{"rsa1024", "rsa2560", "rsa3584", "ed25519", "garbage", "cert-only", "empty", "no-digsig", "rsa1024-later-entry", "encrypted-truncated-ciphertext", "encrypted-short-iv"}, "bad-content")
+				bad := simcore.Pick(s, []string{"rsa1024", "rsa2560", "rsa3584", "ed25519", "garbage", "cert-only", "empty", "no-digsig", "rsa1024-later-entry", "encrypted-truncated-ciphertext", "encrypted-short-iv", "ec224", "ec224-later-entry"}, "bad-content")
 				w.reason = "invalid:" + bad
 				w.torn = []int{-1}
 				switch bad {
@@ -466,9 +466,10 @@ func c16Sim(r *simcore.Run) {
 					w.v = ksVersion{pem: b, why: bad}
 					w.raw = b
 					w.torn = nil
-				case "rsa1024-later-entry":
-					// valid entries followed by one with an unsupported key size: the store parses, the reload must still be rejected as a whole
-					b, _ := os.ReadFile(simkeys.FixturePath("rsa1024"))
+				case "rsa1024-later-entry", "ec224-later-entry":
+					// valid entries followed by one with an unsupported key size (or curve: P-224 parses, JOSE has no
+					// algorithm for it): the store parses, the reload must still be rejected as a whole
+					b, _ := os.ReadFile(simkeys.FixturePath(strings.TrimSuffix(bad, "-later-entry")))
 					w.raw = append(append([]byte(nil), w.v.pem...), b...)
 					w.v = ksVersion{pem: w.raw, why: "unsupported key in a later entry"}
 					w.torn = nil
